@@ -388,6 +388,8 @@ func (s *Sim) multicall(addr string) (int, interface{}) {
 		}
 		res[i] = odd
 		return 200, map[string]interface{}{"results": res}
+	case "decimals-2^64":
+		return 200, map[string]interface{}{"results": []interface{}{succ(sym), succ(name), succ(U256("18446744073709551624"))}} // 2^64 + 8
 	case "long":
 		return 200, map[string]interface{}{"results": []interface{}{succ(ByteVec(make([]byte, 200))), succ(name), succ(U256("300"))}}
 	}
